@@ -136,6 +136,18 @@ func (w *KafkaWriter) writingLoop() {
 	for {
 		select {
 		case <-w.batchingLoopDoneCh:
+			// batching loop is done, nothing new can be pushed: flush what is still buffered before we quit
+			for w.messageBuffer.Length() > 0 {
+				messagesToSend := w.messageBuffer.PopMultiple(100)
+
+				metric := w.newMetric(KAFKAWRITER)
+				metric.AddValue("messages_sent", len(messagesToSend))
+				metric.AddValue("messages_failed", 0)
+
+				w.writeFunction(messagesToSend, &metric)
+
+				monitoring.Send(metric)
+			}
 			w.runningWorkers.Done()
 			return
 		default:
